@@ -234,6 +234,10 @@ func (self *AofFile) Open() error {
 			if err == nil {
 				err = self.WriteHeader()
 			}
+		} else if (self.size-12)%64 != 0 {
+			// partial bytes of a torn record: new records must not be appended behind them
+			self.size -= (self.size - 12) % 64
+			err = self.file.Truncate(int64(self.size))
 		} else {
 			err = nil
 		}
@@ -266,8 +270,12 @@ func (self *AofFile) Open() error {
 
 func (self *AofFile) ReadHeader() error {
 	buf := make([]byte, 12)
-	n, err := self.rbuf.Read(buf)
+	n, err := io.ReadFull(self.rbuf, buf)
 	if err != nil {
+		if err == io.ErrUnexpectedEOF {
+			// torn header (crash inside the first write of a new file): an empty log
+			return io.EOF
+		}
 		return err
 	}
 	if n != 12 {
@@ -317,21 +325,18 @@ func (self *AofFile) ReadLock(lock *AofLock) error {
 		return errors.New("Buffer Len error")
 	}
 
-	n, err := self.rbuf.Read(buf)
+	n, err := io.ReadFull(self.rbuf, buf[:64])
 	if err != nil {
+		if err == io.ErrUnexpectedEOF {
+			// torn final record (crash inside a write): the log ends before it
+			return io.EOF
+		}
 		return err
 	}
 
 	lockLen := uint16(buf[0]) | uint16(buf[1])<<8
 	if n != int(lockLen)+2 {
-		nn, nerr := self.rbuf.Read(buf[n:64])
-		if nerr != nil {
-			return err
-		}
-		n += nn
-		if n != int(lockLen)+2 {
-			return errors.New("Lock Len error")
-		}
+		return errors.New("Lock Len error")
 	}
 
 	self.size += 2 + int(lockLen)
